@@ -279,11 +279,12 @@ def allAssignableG : List STy → List Opnd → Bool
 def callG (params : List STy) (args : List Opnd) : Res Unit :=
   if allAssignableG params args then .ok () else .err
 
-def callValueG (rets : List STy) : Res Opnd :=
+def callValueG (conv : Bool) (rets : List STy) : Res Opnd :=
   match rets with
   | [] => .err
   | [r] => .ok ⟨.s r, .none⟩
-  | _ => .abstain      -- multi-value calls are only legal as the whole argument list / operand list
+  | _ => if conv then .err      -- the operand of a conversion is a single-value context
+         else .abstain          -- multi-value calls are only legal as the whole argument list / operand list
 
 def assignG (_decl : Bool) (_sh : Shape) (t : Ty) (x : Opnd) : Res Ty :=
   if assignableG x t then .ok t else .err
